@@ -56,6 +56,7 @@ def check_format_ast(rep, f, sitemap):
     is read from the paths of the compiled body (sitemap: trait -> {site: {(plus, precision)}})"""
     allsites = [x for x in f.ast.get("format_args", []) if not x["in_test"]]
     n_sites = 0
+    ast_templates = {}
     for tr in TRAITS:
         reach = sitemap.get(tr, {})
         got = [x for x in allsites if x.get("uspan", x["span"]) in reach and (x["impl_trait"].split("::")[-1] == tr or x["impl_self"] != "TwoFloat")]
@@ -72,6 +73,16 @@ def check_format_ast(rep, f, sitemap):
                 rep.fail("R53", inst, "fmt-conds:%s:%s" % (tr, x["span"].split(":")[0]), "format_args! in %s::fmt serves several flag combinations %s; each of {plain, +, .p, +.p} needs its own template" % (tr, sorted(cs)), where=x["span"]); continue
             combos.add((plus, prec))
             ps = x["pieces"]; args = x["args"]
+            def nf_(k_, p_):
+                if "lit" in p_:
+                    return ("lit", p_["lit"])
+                h_ = p_["ph"]
+                # the numerals (first and last placeholder) are rendered with the impl's own trait; the joiner is a plain character
+                # (or through a private wrapper printed with `{}`: which trait that amounts to is decided on the compiled body, R53m)
+                trait_ = ("num" if h_["trait"] in (tr, "Display") else h_["trait"]) if k_ in (0, len(ps) - 1) else h_["trait"]
+                return ("ph", trait_, h_["sign"], "arg" if isinstance(h_["precision"], dict) and h_["precision"].get("arg") is not None else h_["precision"],
+                        h_["alternate"], h_["zero_pad"], h_["fill"], h_["align"], h_["width"])
+            ast_templates.setdefault((plus, prec), {}).setdefault(tr, set()).add(tuple(nf_(k_, p_) for k_, p_ in enumerate(ps)))
             shape = [("ph" if "ph" in p else "lit") for p in ps]
             errs = []
             if shape != ["ph", "lit", "ph", "lit", "ph"] or ps[1]["lit"] != " " or ps[3]["lit"] != " ":
@@ -100,6 +111,14 @@ def check_format_ast(rep, f, sitemap):
                       detail="'{hi} {sign_char} {|lo|}' trait %s, '+' %s, precision %s" % (tr, "on hi only" if plus else "absent", "forwarded to both numerals" if prec else "absent"))
         rep.check(combos == {(True, True), (True, False), (False, True), (False, False)}, "R53", "%s covers {plain, +, .p, +.p}" % tr, "fmt-combos:" + tr,
                   "%s::fmt does not have one format_args! per flag combination: %s" % (tr, sorted(combos)), nontrivial=False)
+    # R53x: per flag combination the three impls use the same template up to the trait of the numerals (X)
+    for combo, d in sorted(ast_templates.items()):
+        allt = set()
+        for tr_, ts in d.items():
+            allt |= ts
+        rep.check(len(allt) == 1 and len(d) == 3, "R53x", "template agreement plus=%s precision=%s" % combo, "fmt-template:%s:%s" % combo,
+                  "the three fmt impls use different templates for the flag combination plus=%s precision=%s: %s" % (combo[0], combo[1], sorted(allt)[:2]),
+                  detail="identical placeholders (flags, precision source, literals) in Display/LowerExp/UpperExp, the numerals' trait being the impl's own", nontrivial=False)
     rep.floor("R53", n_sites, 12, "format_args! sites reached from the three fmt impls")
 
 # ------------------------------------------------------------------ R53 (MIR wiring)
@@ -202,13 +221,8 @@ def check_format_mir(rep, f):
                 errs.append("argument order is not hi, sign, lo")
         rep.check(not errs and n_leaves == 8, "R53m", ident, "fmt-mir:" + tr, "%s::fmt wiring: %s (%d paths)" % (tr, "; ".join(sorted(set(errs))), n_leaves), where=H.where(b),
                   detail="8 paths: sign char '+' iff lo's sign bit clear; arguments (hi, sign, fabs(lo)) formatted with %s" % ctor)
-    # the compiled templates of the three impls agree per flag combination (X)
-    for combo, d in sorted(templates.items()):
-        allt = set()
-        for tr, ts in d.items():
-            allt |= ts
-        rep.check(len(allt) == 1 and len(d) == 3, "R53x", "template agreement plus=%s precision=%s" % combo, "fmt-template:%s:%s" % combo,
-                  "the three fmt impls compile different templates for the flag combination plus=%s precision=%s" % combo, detail="identical compiled template in Display/LowerExp/UpperExp", nontrivial=False)
+    # (agreement of the three impls per flag combination, rule R53x, is decided on the placeholders of the expanded templates:
+    #  the compiled templates differ between `{:.*}` and `{:.prec$}` spellings of the same format)
     return sitemap
 
 # ------------------------------------------------------------------ R54 serde
